@@ -8,14 +8,24 @@ from . import tokens as T
 from . import c10
 
 EXPLANATION = (
-    "The soundness of the exhaustiveness fold is an abstract interpretation over unbounded depth and is NOT decided "
-    "(known false positives such as `**/{a}` are semantic and invisible to these rules).  Decided are the finite parts a "
-    "false `always` can come from: the trivalent truth tables (27 cells), the verdict functions (a depth variance is "
-    "exhaustive iff it has no upper bound; a disjunctive term folds its branches with `certainty`, an empty one is "
-    "never), the sequencer's admission predicate over all leaf shapes and its selection of exactly the maximal admitted "
-    "suffix on every child list up to the bound, the repetition guard in finalize, the discarded-terms branch of fold, "
-    "and the identical delegation of Glob and Any.")
-RULES = "C09.verdict (TABLE), C09.admit + C09.suffix (EFFECT), C09.repeat (TABLE), C09.fold (TABLE), C09.sibling (SIBLING), C09.upper (TABLE on a grid: range operations never lose an upper bound)"
+    "(sound) On a catalogue of small expressions - every top-level sequence of up to two (thorough: three) segments around "
+    "one alternation (one or two branches) or repetition (bounds 0.., 1.., thorough also 2..2 and 1..2) whose sub-expressions "
+    "have up to two segments of literals, `*`, (thorough: `?`,) `**` with optional leading / trailing separators, ~6 500 "
+    "(thorough ~30 000) expressions, of which the rule checker's verdict keeps those that can be built - the verdict "
+    "Token::is_exhaustive (the whole fold evaluated from its THIR: sequencer, terms, fold, finalize) is compared with the "
+    "language of the program text encode::compile emits for the same tree (an automaton over a concrete alphabet, "
+    "sa/rxc.py): `always` requires that every canonical path beneath a matched canonical path is matched (the empty path "
+    "is canonical and every relative path is beneath it).  Two artefacts computed from the source are compared; nothing "
+    "is run.  This decides soundness for the shapes of the catalogue, which is where a flaw of the fold's finite case "
+    "structure shows; soundness for all expressions (an abstract interpretation over unbounded depth) is not decided.  "
+    "Also decided, as necessary conditions: the trivalent truth tables (27 cells), the verdict functions (a depth "
+    "variance is exhaustive iff it has no upper bound; a disjunctive term folds its branches with `certainty`, an empty "
+    "one is never), the sequencer's admission predicate over all leaf shapes and that it selects a suffix free of "
+    "bounded leaves on every child list up to the bound, the repetition guard in finalize, the discarded-terms branch "
+    "of fold, the identical delegation of Glob and Any, and (upper) that no range operation loses an upper bound the "
+    "true interval has (same grid as C10.range).")
+RULES = ("C09.sound (TABLE on a catalogue: verdict vs. language), C09.verdict (TABLE), C09.admit + C09.suffix (EFFECT), "
+         "C09.repeat (TABLE), C09.fold (TABLE), C09.sibling (SIBLING), C09.upper (TABLE on a grid)")
 
 WHEN = "query::When"
 REF_AND = lambda a, b: "Never" if "Never" in (a, b) else ("Sometimes" if "Sometimes" in (a, b) else "Always")
@@ -28,9 +38,9 @@ ADMITTED = {"sep", "zom", "zom-lazy", "tree", "tree-rooted", "branch"}
 def run(ctx):
     F = ctx.facts()
     R = ctx.report
-    R.undecided("soundness of the exhaustiveness verdict for whole expressions (the fold over the admitted suffix, the "
-                "zero term substituted for discarded terms, products with repetition ranges): known to be violated by "
-                "`**/{a}`, `**/{a,bc}`, `**/<a:1,2>`, which these rules cannot see")
+    R.undecided("soundness of the verdict for expressions outside the catalogue (deeper nesting, more than one branch token "
+                "per level, classes); known and recorded: optional repetitions (`<*/>` matches the empty path only)")
+    R.assume("regex crate semantics for the program text; the rule checker's size rule does not affect the catalogue")
     R.assume("depth terms of leaves and the termination algebra are as decided by C10")
     rule_when(F, R)
     rule_verdict(F, R)
@@ -39,6 +49,8 @@ def run(ctx):
     rule_fold(F, R)
     rule_sibling(F, R)
     rule_upper_bound(F, R)
+    from . import exhaust
+    exhaust.report(F, R, "C09.sound", ctx.tier)
 
 
 def rule_when(F, R):
@@ -162,16 +174,20 @@ def rule_suffix(F, R, maxlen):
     for length in range(2, maxlen + 1):
         for shapes in itertools.product(alphabet, repeat=length):
             got, cases = evaluate(list(shapes))
+            # Necessary for soundness (not the algorithm itself): what is selected is a contiguous suffix of the children,
+            # taken from the end, that contains no bounded leaf - a token in front of a bounded token must never
+            # contribute.  How far the suffix reaches beyond that (past branches) is judged by C09.sound.
             k = 0
-            while k < length and shapes[length - 1 - k] in ADMITTED:
+            while k < length and (shapes[length - 1 - k] in ADMITTED or shapes[length - 1 - k] == "branch"):
                 k += 1
-            want = [mk(shapes[i], i).tag for i in range(length - 1, length - 1 - k, -1)]
+            longest = [mk(shapes[i], i).tag for i in range(length - 1, length - 1 - k, -1)]
             n += 1
-            if got == want:
-                R.ok("C09.suffix", "/".join(shapes), "selects the maximal admitted suffix (%d of %d)" % (k, length), it.where(), sample=(n % 97 == 0))
+            if got is not None and got == longest[:len(got)]:
+                R.ok("C09.suffix", "/".join(shapes), "selects a suffix without bounded leaves (%d of %d)" % (len(got), length), it.where(), sample=(n % 97 == 0))
             else:
-                R.fail("C09.suffix", "/".join(shapes), "children %s: selected %r, expected the maximal admitted suffix %r "
-                       "(scanning from the front, or past a bounded token, judges a bounded tail exhaustive)" % (list(shapes), got, want), it.where())
+                R.fail("C09.suffix", "/".join(shapes), "children %s: selected %r, which is not a suffix (taken from the end) free of bounded "
+                       "leaves (the longest such suffix is %r): scanning from the front, or past a bounded token, judges a bounded "
+                       "tail exhaustive" % (list(shapes), got, longest), it.where())
     R.floor("C09.suffix", "child lists", n, 300)
 
 
